@@ -29,12 +29,14 @@ Proof.
   destruct (Nat.lt_ge_cases k (length l - m)) as [Hlt|Hge].
   - rewrite app_nth1 by lia. rewrite Z.mod_small by lia.
     replace (Z.to_nat (Z.of_nat k + Z.of_nat m)) with (m + k)%nat by lia.
-    rewrite <- (firstn_skipn m l) at 2. rewrite app_nth2 by lia. rewrite Ea. f_equal. lia.
+    transitivity (nth (m + k) (firstn m l ++ skipn m l) x); [|now rewrite firstn_skipn].
+    rewrite app_nth2 by lia. rewrite Ea. f_equal. lia.
   - rewrite app_nth2 by lia. rewrite Eb.
     replace ((Z.of_nat k + Z.of_nat m) mod n) with (Z.of_nat k + Z.of_nat m - n).
-    2:{ symmetry. apply Z.mod_unique with (q := 1); lia. }
+    2:{ apply Z.mod_unique with (q := 1); lia. }
     replace (Z.to_nat (Z.of_nat k + Z.of_nat m - n)) with (k - (length l - m))%nat by lia.
-    rewrite <- (firstn_skipn m l) at 3. rewrite app_nth1 by lia. reflexivity.
+    transitivity (nth (k - (length l - m)) (firstn m l ++ skipn m l) x); [|now rewrite firstn_skipn].
+    rewrite app_nth1 by lia. reflexivity.
 Qed.
 
 Lemma list_ext (a b : list Z) : length a = length b ->
@@ -59,7 +61,7 @@ Proof.
 Qed.
 
 Theorem rot_0 l : rot 0 l = l.
-Proof. unfold rot. rewrite Z.mod_0_l'. cbn. now rewrite app_nil_r. Qed.
+Proof. unfold rot. rewrite Zmod_0_l. cbn. now rewrite app_nil_r. Qed.
 
 Theorem rot_mul_length k l : rot (k * Z.of_nat (length l)) l = l.
 Proof. rewrite <- (rot_0 l) at 3. apply rot_congr.
